@@ -143,7 +143,6 @@ func existsPath(fn *ssa.Function, atoms atomEnv, target func(ssa.Instruction) bo
 	return found
 }
 
-
 // existsPathFrom: like existsPath but starting just after instruction `from` (phi environment empty).
 func existsPathFrom(fn *ssa.Function, atoms atomEnv, from ssa.Instruction, target func(ssa.Instruction) bool, barrier func(ssa.Instruction) bool) ssa.Instruction {
 	b := from.Block()
@@ -234,7 +233,6 @@ func existsPathFrom(fn *ssa.Function, atoms atomEnv, from ssa.Instruction, targe
 	}
 	return found
 }
-
 
 // existsPathInLoop: existsPath where the atoms are comparisons evaluated inside a loop body: the search
 // covers one iteration — it starts at the head of the innermost loop around the atoms and stops when the
